@@ -26,20 +26,22 @@ collect)
   echo "{\"source_worktree\":\"$wt\",\"demo_pkg\":\"$pkg\",\"demo_with_rc\":$w,\"demo_without_rc\":$wo}" > $out/verify.json
   ;;
 run)
+  # runs in a scratch worktree (never in /repo): VERIF_ALT_REPO makes check.py build against it
   name=$1; shift
   tier=quick
-  cd /repo || exit 2
-  git diff --quiet || { echo "/repo has uncommitted changes"; exit 2; }
-  git apply /verif/seeded/$name/patch.diff || { echo "patch does not apply"; exit 2; }
+  wt=/tmp/seedrun/$name
+  git -C /repo worktree remove --force $wt 2>/dev/null; rm -rf $wt; mkdir -p /tmp/seedrun
+  git -C /repo worktree add --detach -q $wt HEAD || exit 2
+  (cd $wt && git apply /verif/seeded/$name/patch.diff) || { echo "patch does not apply"; git -C /repo worktree remove --force $wt; exit 2; }
   for c in "$@"; do
     if [ "$c" = thorough ] || [ "$c" = quick ]; then tier=$c; continue; fi
   done
   for c in "$@"; do
     if [ "$c" = thorough ] || [ "$c" = quick ]; then continue; fi
     t0=$(date +%s)
-    (cd /verif && python3 check.py $c $tier 2>&1 | grep -E "VIOLATION|^OK|INCONCLUSIVE|rapid\] failed|KNOWN" | cut -c1-400 | head -5)
+    (cd /verif && VERIF_ALT_REPO=$wt python3 check.py $c $tier 2>&1 | grep -E "VIOLATION|^OK|INCONCLUSIVE|rapid\] failed|KNOWN" | cut -c1-400 | head -5)
     echo "  [$c $tier: $(( $(date +%s) - t0 )) s]"
   done
-  git checkout -- . ; git status --short | head -3
+  git -C /repo worktree remove --force $wt; git -C /repo worktree prune
   ;;
 esac
